@@ -137,6 +137,12 @@ def run_case(case):
 
 def main(args):
     run = core.Run("C13", args.tier, "exploration", "./check C13 --tier " + args.tier)
+    # E1 (proof part): the operator signature table, on the real functions, for every operator / arity / operand-kind tuple
+    from vlib import pool
+    pool.run_targets(run, "contracts.typing", ["_type_check_operation"])
+    run.function("compiler.front_end.type_check._type_check_operation (+ _type_check_comparison_operator, _type_check_choice_operator, _type_check_monomorphic_operator, _types_are_compatible, _type_check*)",
+                 "pyvc: bodies executed over records that expose only type.which_type / enum name / which_expression: no error <=> documented signature, documented result type")
+    run.assume(*core.STANDING_ASSUMPTIONS["E1"])
     cs = cases()
     t0 = time.time()
     with multiprocessing.get_context("fork").Pool(16) as pool:
